@@ -29,12 +29,22 @@ pB = Proxy(cfgB, 'c10b')
 pB.api_port = bp['api']
 if not pB.start([bp['socks'], bp['http'], bp['api']]):
     machinery('hop B did not start: ' + pB.log()[-500:])
+# A second hop B for the inline QUIC connector. A UDP session at this hop whose client side has ended lives on until
+# the idle timeout (the origin's direction never "ends") and, arriving inline over QUIC, it keeps one of the connection's
+# 100 streams until then: with the long timeout the sessions of earlier parts would use the streams up before the later
+# parts run. Short timeouts on both hops of this path only.
+bq = {k: free_port() for k in ('quic', 'api')}
+pBq = Proxy({'listeners': [{'name': 'quic', 'type': 'quic', 'bind': f"127.0.0.1:{bq['quic']}", 'tls': {'cert': f'{CERTS}/server.crt', 'key': f'{CERTS}/server.key'}}],
+             'connectors': [{'name': 'direct'}], 'rules': [{'target': 'direct'}], 'metrics': {'bind': f"127.0.0.1:{bq['api']}", 'ui': None}, 'timeouts': {'idle': 600, 'udp': 5}}, 'c10bq')
+pBq.api_port = bq['api']
+if not pBq.start([bq['api']]):
+    machinery('hop B (quic inline) did not start: ' + pBq.log()[-500:])
 
 CONNECTORS = {
     'direct': {'name': 'c', 'type': 'direct'},
     'socks5': {'name': 'c', 'type': 'socks', 'server': '127.0.0.1', 'port': bp['socks'], 'version': 5},
     'http-inline': {'name': 'c', 'type': 'http', 'server': '127.0.0.1', 'port': bp['http']},
-    'quic-inline': {'name': 'c', 'type': 'quic', 'server': 'localhost', 'port': bp['quic'], 'bind': '127.0.0.1:0', 'inlineUdp': True, 'tls': {'ca': f'{CERTS}/ca.crt'}},
+    'quic-inline': {'name': 'c', 'type': 'quic', 'server': 'localhost', 'port': bq['quic'], 'bind': '127.0.0.1:0', 'inlineUdp': True, 'tls': {'ca': f'{CERTS}/ca.crt'}},
     'quic-datagrams': {'name': 'c', 'type': 'quic', 'server': 'localhost', 'port': bp['quic'], 'bind': '127.0.0.1:0', 'inlineUdp': False, 'tls': {'ca': f'{CERTS}/ca.crt'}},
 }
 hopA = {}
@@ -45,7 +55,9 @@ for cname, c in CONNECTORS.items():
         'listeners': [{'name': 'socks', 'bind': f"127.0.0.1:{ap['socks']}"}, {'name': 'http', 'bind': f"127.0.0.1:{ap['http']}"}] +
                      [{'name': f'rudp-{d}', 'type': 'reverse', 'protocol': 'udp', 'bind': f'127.0.0.1:{rud[d]}', 'target': (f'[{h}]:{origin.port}' if ':' in h else f'{h}:{origin.port}')} for d, h in DSTS],
         'connectors': [c], 'rules': [{'target': 'c'}],
-        'metrics': {'bind': f"127.0.0.1:{ap['api']}", 'ui': None}, 'timeouts': {'idle': 600, 'udp': 600},
+        # reverse-UDP sessions have no end but the idle timeout, and every inline session over QUIC holds one of the
+        # connection's 100 streams: with a long timeout the sessions of earlier parts would use the streams up
+        'metrics': {'bind': f"127.0.0.1:{ap['api']}", 'ui': None}, 'timeouts': {'idle': 600, 'udp': 5 if cname == 'quic-inline' else 600},
     }
     p = Proxy(cfgA, 'c10a-' + cname)
     p.api_port = ap['api']
@@ -524,6 +536,10 @@ def run_storm(cname):
     p_, ap_, rud_ = hopA[cname]
     port = rud_['ipv4']
     T, N = 8, (150 if tier() == 'thorough' else 80)
+    if cname == 'quic-inline':
+        # every inline session holds one QUIC stream and a connection carries 100 of them (quinn's default): beyond that
+        # new sessions wait for a stream - a capacity limit, not what this storm is about
+        N = 11
     res = {'own': 0, 'foreign': [], 'none': 0}
     lock = threading.Lock()
     barrier = threading.Barrier(T)
@@ -781,7 +797,9 @@ for p, _, _ in hopA.values():
     p.stop()
 if not pB.alive():
     chk.violation('process', 'proxy-died', f'hop B exited with {pB.returncode()}: {pB.log()[-300:]}', {})
-pB.stop()
+if not pBq.alive():
+    chk.violation('process', 'proxy-died', f'hop B (quic inline) exited with {pBq.returncode()}: {pBq.log()[-300:]}', {})
+pB.stop(); pBq.stop()
 origin.stop()
 if evals < 100 or len(distinct) < 10:
     machinery(f'vacuous: evals={evals} distinct={len(distinct)}')
